@@ -27,13 +27,17 @@ ASSUMPTIONS = ['z_mock=0.5 (a "primary" redshift, particles loaded); at least on
 MPART = 2.0e9
 
 
+_IDBASE = [0]
+
+
 def fh(h, col, comp=0):
     """Injective per-(id, column, component) value."""
     base = dict(x=1, v=2, vdev_g=3, vdev_e=4, sig=5, r98=6, r25=7, N=8, dc=9, fe=10, multi=11, rnd=12, sh=13)[col]
+    h = np.asarray(h, dtype=np.int64) - _IDBASE[0]  # ids may carry a large common offset; the value function stays float32-injective
     return (np.asarray(h, dtype=np.float64) * 37.0 + base * 1000003.0 + comp * 0.25) / 1024.0
 
 
-def make_dir(rng, nslab, order, want_ranks, mt, halos_per_slab, scalar_vdev=False, physical=False):
+def make_dir(rng, nslab, order, want_ranks, mt, halos_per_slab, scalar_vdev=False, physical=False, idbase=0):
     root = tempfile.mkdtemp(prefix='verif_hod_')
     sim = 'SimH'
     z = 0.5
@@ -47,8 +51,13 @@ def make_dir(rng, nslab, order, want_ranks, mt, halos_per_slab, scalar_vdev=Fals
     import h5py
 
     Htot = sum(halos_per_slab)
-    ids = rng.choice(np.arange(100, 100 + 50 * Htot), Htot, replace=False).astype(np.int64)
-    if order == 'increasing':
+    _IDBASE[0] = int(idbase)
+    ids = rng.choice(np.arange(100, 100 + 50 * Htot), Htot, replace=False).astype(np.int64) + np.int64(idbase)
+    if order == 'decreasing_slabs':
+        srt = np.sort(ids)
+        S = halos_per_slab[0]
+        ids = np.concatenate([srt[i * S : (i + 1) * S] for i in range(nslab)][::-1])
+    elif order == 'increasing':
         ids = np.sort(ids)
     elif order == 'decreasing':
         ids = np.sort(ids)[::-1].copy()
@@ -82,7 +91,7 @@ def make_dir(rng, nslab, order, want_ranks, mt, halos_per_slab, scalar_vdev=Fals
         h['sigmav3d_L2com'] = fh(hid, 'sig')
         h['r98_L2com'] = fh(hid, 'r98')
         h['r25_L2com'] = fh(hid, 'r25')
-        h['N'] = (hid % 100000) + 50
+        h['N'] = ((hid - np.int64(idbase)) % 100000) + 50
         h['deltac_rank'] = fh(hid, 'dc')
         h['fenv_rank'] = fh(hid, 'fe')
         h['multi_halos'] = fh(hid, 'multi')
@@ -111,7 +120,7 @@ def make_dir(rng, nslab, order, want_ranks, mt, halos_per_slab, scalar_vdev=Fals
                 p['pos'][:, c] = ser + 0.25 * c
                 p['vel'][:, c] = -ser - 0.25 * c
                 p['halo_vel'][:, c] = fh(host, 'v', c)
-            p['halo_mass'] = ((host % 100000) + 50) * 1.0
+            p['halo_mass'] = (((host - np.int64(idbase)) % 100000) + 50) * 1.0
             p['Np'] = 1 + ser % 7
             p['downsample_halo'] = 0.5
             p['randoms'] = (ser % 1000) / 1000.0
@@ -215,7 +224,7 @@ def stage_and_check(run, AH, truth, flags, tracers, chunk, n_chunks, desc):
         'hpos': np.stack([f32(fh(hid, 'x', c)) for c in range(3)], axis=1),
         'hvel': np.stack([f32(fh(hid, 'v', c)) for c in range(3)], axis=1),
         'hveldev': np.stack([f32(fh(hid, vdevcol, 0 if scalar else c)) for c in range(3)], axis=1),
-        'hmass': ((hid % 100000) + 50).astype(np.float64) * MPART,
+        'hmass': (((hid - _IDBASE[0]) % 100000) + 50).astype(np.float64) * MPART,
         'hmultis': f32(fh(hid, 'multi')),
         'hrandoms': f32(fh(hid, 'rnd')),
         'hsigma3d': f32(fh(hid, 'sig')),
@@ -292,7 +301,14 @@ def check(run):
         tracers = [('LRG',), ('LRG', 'ELG'), ('ELG',), ('LRG', 'ELG', 'QSO'), ('QSO',)][k % 5]
         mt = any(t in tracers for t in ('ELG', 'QSO'))
         scalar_vdev = k % 7 == 6
-        truth = make_dir(rng, nslab, order, flags['want_ranks'], mt, hps, scalar_vdev=scalar_vdev)
+        idbase = 0
+        if k % 6 == 1:
+            # internally sorted slabs of equal size in decreasing order: every descent sits on a slab boundary
+            nslab, S = [(2, 8), (4, 8), (4, 4), (2, 3), (8, 2), (16, 1), (2, 6), (3, 5)][(k // 6) % 8]
+            hps, order = [S] * nslab, 'decreasing_slabs'
+        if k % 6 == 4:
+            idbase = 1 << 60  # ids beyond 2^53 (still valid int64)
+        truth = make_dir(rng, nslab, order, flags['want_ranks'], mt, hps, scalar_vdev=scalar_vdev, idbase=idbase)
         try:
             chunkings = [(-1, 1)]
             if nslab >= 2 and k % 3 == 0:
